@@ -292,7 +292,33 @@ def op_multipart(pkg, op):
         return {"enc_exc": exc_info(e)}
 
 
-OPS = {"roundtrip": op_roundtrip, "import_all": op_import_all, "signature": op_signature, "construct": op_construct, "call": op_call, "get_kwargs": op_get_kwargs, "parse": op_parse, "multipart": op_multipart}
+def op_probe_models(pkg, op):
+    """import every module of <pkg>.models on its own, behind a stub package that does not execute models/__init__ (so one
+    module that cannot be imported does not hide the others); reports the failing modules (C18)"""
+    import os, types
+    root = importlib.import_module(pkg)
+    mdir = os.path.join(list(root.__path__)[0], "models")
+    for k in [k for k in sys.modules if k == pkg + ".models" or k.startswith(pkg + ".models.")]:
+        del sys.modules[k]
+    stub = types.ModuleType(pkg + ".models")
+    stub.__path__ = [mdir]
+    stub.__package__ = pkg + ".models"
+    sys.modules[pkg + ".models"] = stub
+    failed = {}
+    try:
+        for f in sorted(os.listdir(mdir)):
+            if f.endswith(".py") and f != "__init__.py":
+                try:
+                    importlib.import_module(pkg + ".models." + f[:-3])
+                except BaseException as e:  # noqa
+                    failed[f[:-3]] = exc_info(e)
+    finally:
+        for k in [k for k in sys.modules if k == pkg + ".models" or k.startswith(pkg + ".models.")]:
+            del sys.modules[k]
+    return {"failed": failed}
+
+
+OPS = {"roundtrip": op_roundtrip, "import_all": op_import_all, "signature": op_signature, "construct": op_construct, "call": op_call, "get_kwargs": op_get_kwargs, "parse": op_parse, "multipart": op_multipart, "probe_models": op_probe_models}
 
 
 def main():
